@@ -36,6 +36,18 @@ EXT = {'json': 'json', 'yaml': 'yaml', 'toml': 'toml', 'env': 'env', 'flags': 't
 # Behaviour of the real code on the pinned HEAD that breaks a clause of the statement (checked by hand).  Each entry switches ONE
 # tolerance below (look for known('<id>')); deleting an entry re-arms the strict oracle for it.
 KNOWN = [
+    dict(id='trace-of-cached-import',
+         input='lib.ucg = `let name = TRACE "shared";`, a.ucg = `let s = import "lib.ucg";`, b.ucg = `let s = import "lib.ucg";`; `ucg build a.ucg b.ucg` (also `ucg build a.ucg a.ucg`)',
+         observed='`TRACE: "shared" = "shared" at file: <P>/lib.ucg line: 1 column: 18` is printed once, under `Building a.ucg`; under `Building b.ucg` nothing is printed. '
+                  '`ucg build b.ucg` alone prints the line',
+         clause='second sentence: sharing of imported values between the files of one invocation is never observable',
+         what='the value of an imported file is computed once per invocation: when a later file of the same invocation imports it again (directly or through other imports) '
+              'the TRACE expressions of the imported file do not print again, so the stderr of the batch is not the concatenation of the stderr of the builds alone, and the '
+              'second file\'s output depends on what was built before it',
+         replay='lib.ucg: `let name = TRACE "shared";`  a.ucg and b.ucg: `let s = import "lib.ucg";`  `ucg build b.ucg` prints `Building b.ucg` + the TRACE line; '
+                '`ucg build a.ucg b.ucg` prints the TRACE line only after `Building a.ucg`; `ucg build a.ucg a.ucg` prints it only after the first `Building a.ucg`',
+         excluded='tolerated: in the output of a file of a batch, a `TRACE: ... at file: G` line may be missing (or present) when G is another file than the one being built '
+                  'and G is imported, directly or transitively, by a file built earlier in the same invocation; everything else is compared exactly'),
 ]
 
 
@@ -170,20 +182,24 @@ class Mismatch(Exception):
         self.what, self.expected, self.observed = what, expected, observed
 
 
-def build_alone(sb):
-    alone = {}
-    for f in sb.proj.order:
-        sb.clean()
+def build_alone(proj, f):
+    """`ucg build f` in a fresh copy of the project without artifacts"""
+    sb = Sandbox(proj)
+    try:
         rc, pre, segs, out = sb.run([f])
         if len(segs) != 1 or segs[0][0] != f:
             raise Mismatch('`ucg build %s` alone does not announce exactly `Building %s`' % (f, f), 'Building ' + f, out[-600:])
-        alone[f] = dict(rc=rc, pre=pre, lines=segs[0][1], arts=sb.artifacts(), raw=out)
-    sb.clean()
-    return alone
+        return dict(rc=rc, pre=pre, lines=segs[0][1], arts=sb.artifacts(), raw=out)
+    finally:
+        sb.close()
 
 
 def optional_line(proj, ln, cur, earlier):
     """KNOWN tolerances: a line of file `cur`'s alone output that may be missing in a batch after the files `earlier`."""
+    if known('trace-of-cached-import'):
+        m = re.match(r'TRACE: .* at file: <P>/(\S+) line: \d+ column: \d+$', ln)
+        if m and m.group(1) != cur and any(m.group(1) in proj.closure(e) for e in earlier):
+            return True
     return False
 
 
@@ -192,16 +208,18 @@ def check_invocation(sb, alone, args, keep_artifacts=False):
     proj = sb.proj
     if not keep_artifacts:
         sb.clean()
+    cmd = 'ucg build ' + ' '.join(args).replace('$ROOT', '<P>')
+    args = [a.replace('$ROOT', sb.root) for a in args]
     want = sb.expand(args)
     rc, pre, segs, out = sb.run(args)
-    cmd = 'ucg build ' + ' '.join(args)
+    out = out.replace(sb.root, '<P>')
     unknown = [f for f in want if f not in alone]
     if unknown:
         raise RuntimeError('harness: %s expands to files without an alone build: %s' % (cmd, unknown))
     built = set(f for f, _ in segs)
     if built != want:
         raise Mismatch('`%s` builds %s, it was asked to build %s' % (cmd, sorted(built), sorted(want)), sorted(want), out[-1200:])
-    any_pre = alone[sorted(want)[0]]['pre'] if want else []
+    any_pre = alone[sorted(want)[0] if want else proj.order[0]]['pre']
     if pre != any_pre:
         raise Mismatch('`%s` prints before the first file: %r (a build alone prints %r there)' % (cmd, pre[:3], any_pre[:3]), any_pre, out[-1200:])
     earlier = []
@@ -230,28 +248,378 @@ def check_invocation(sb, alone, args, keep_artifacts=False):
                            dict(artifact=a, bytes=sorted(repr(x) for x in exp_arts[a])), dict(artifact=a, bytes=repr(arts[a]), output=out[-800:]))
 
 
-def run_project(proj, configs):
-    """configs: list of (args, twice).  -> (number of invocations, None | violation dict)"""
+def violation_of(proj, m, cur):
+    how = 'files written to an empty directory <P>; environment: %s=%r, %s not set; ' % (SET_VAR, SET_VAL, UNSET_VAR)
+    if cur is None:
+        how += 'each file built alone'
+    else:
+        how += 'every file first built alone with `ucg build <file>` (fresh process, no artifacts), then `ucg build %s`%s' % (
+            ' '.join(cur[0]).replace('$ROOT', '<P>'), ' run a second time with the artifacts of its first run left in place' if cur[1] == 2 else ' in a copy of the directory without artifacts')
+    return dict(project=proj.name, detail='project %s: %s' % (proj.name, m.what),
+                input=dict(source=proj.describe(), data=proj.data, expected=m.expected, observed=m.observed, how=how))
+
+
+def batch_task(proj, alone, chunk, stop):
+    """chunk: list of (args, twice) -> (invocations, None | violation dict)"""
     sb = Sandbox(proj)
+    cur = None
     try:
-        cur = None
-        try:
-            alone = build_alone(sb)
-            for args, twice in configs:
-                cur = (args, 1)
-                check_invocation(sb, alone, args)
-                if twice:
-                    cur = (args, 2)
-                    check_invocation(sb, alone, args, keep_artifacts=True)
-        except Mismatch as m:
-            how = 'files written to an empty directory; environment: %s=%r, %s not set; ' % (SET_VAR, SET_VAL, UNSET_VAR)
-            if cur is None:
-                how += 'each file built alone'
-            else:
-                how += 'every file first built alone with `ucg build <file>` (fresh process, artifacts removed), then `ucg build %s`%s' % (
-                    ' '.join(cur[0]), ' run a second time with the artifacts of its first run left in place' if cur[1] == 2 else ' on a directory without artifacts')
-            return sb.runs, dict(project=proj.name, detail='project %s: %s' % (proj.name, m.what),
-                                 input=dict(source=proj.describe(), data=proj.data, expected=m.expected, observed=m.observed, how=how))
+        for args, twice in chunk:
+            if stop and stop[0]:
+                break
+            cur = (args, 1)
+            check_invocation(sb, alone, args)
+            if twice:
+                cur = (args, 2)
+                check_invocation(sb, alone, args, keep_artifacts=True)
         return sb.runs, None
+    except Mismatch as m:
+        return sb.runs, violation_of(proj, m, cur)
     finally:
         sb.close()
+
+
+def run_all(items, chunk_size=3):
+    """items: list of (Project, [(args, twice)]).  -> (alone builds, batch invocations, first violation or None)"""
+    R.ucg_binary()
+    stop = [False]
+    n_alone = n_batch = 0
+    viol = []
+    with concurrent.futures.ThreadPoolExecutor(max_workers=WORKERS) as ex:
+        fut = {}
+        for pi, (proj, _) in enumerate(items):
+            for f in proj.order:
+                fut[(pi, f)] = ex.submit(build_alone, proj, f)
+        alone = [dict() for _ in items]
+        for (pi, f), fu in fut.items():
+            try:
+                alone[pi][f] = fu.result()
+                n_alone += 1
+            except Mismatch as m:
+                viol.append(((pi, -1), violation_of(items[pi][0], m, None)))
+        if viol:
+            return n_alone, 0, sorted(viol, key=lambda x: x[0])[0][1]
+        fut = {}
+        for pi, (proj, cfgs) in enumerate(items):
+            for ci in range(0, len(cfgs), chunk_size):
+                fut[(pi, ci)] = ex.submit(batch_task, proj, alone[pi], cfgs[ci:ci + chunk_size], stop)
+        for key, fu in fut.items():
+            runs, v = fu.result()
+            n_batch += runs
+            if v:
+                stop[0] = True
+                viol.append((key, v))
+    return n_alone, n_batch, (sorted(viol, key=lambda x: x[0])[0][1] if viol else None)
+
+
+# ------------------------------------------------------------------------------------------------------------------------ designed projects
+def designed_projects():
+    P = []
+    # fixed 9e39a52: a cached import shape carried the position of the FIRST import of lib.ucg in the invocation (another file, another line)
+    P.append((Project('shape_pos', {
+        'lib.ucg': 'let foo = 1;\n',
+        'a.ucg': 'let lib = import "lib.ucg";\nlet x = lib.foo + 1;\nout json x;\n',
+        'b.ucg': '\n\n\nlet l = import "lib.ucg";\nlet y = not l;\nout json 1;\n',
+        'c.ucg': 'let l1 = import "lib.ucg";\n\n  let l2 = import "./lib.ucg";\nlet y = not l2;\n',
+    }), [['a.ucg', 'b.ucg'], ['b.ucg', 'a.ucg'], ['c.ucg', 'b.ucg'], ['a.ucg', 'c.ucg', 'b.ucg'], ['lib.ucg', 'b.ucg', 'c.ucg']]))
+    # fixed f342db1: output locks were never released
+    P.append((Project('out_lock', {
+        'lib.ucg': 'let foo = 1;\nout json {foo = foo};\n',
+        'a.ucg': 'let lib = import "lib.ucg";\nlet x = lib.foo + 1;\nout json {x = x};\n',
+        'two.ucg': 'out json 1;\nout json 2;\n',
+        'b.ucg': 'let a = import "a.ucg";\nout yaml {y = a.x, l = a.lib.foo};\n',
+    }), [['lib.ucg', 'a.ucg'], ['a.ucg', 'lib.ucg'], ['a.ucg', 'a.ucg'], ['two.ucg', 'two.ucg', 'lib.ucg'], ['b.ucg', 'a.ucg', 'lib.ucg', 'b.ucg'], ['lib.ucg', 'lib.ucg', 'a.ucg']]))
+    # nested directories, imports through `..`, one file under three spellings, std import, TRACE in a shared library, env
+    P.append((Project('tree', {
+        'lib/shared.ucg': 'let v = 3;\nlet f = func(x) => x * 2;\nlet name = TRACE "shared";\nout yaml {v = v};\n',
+        'sub/a.ucg': 'let s = import "../lib/shared.ucg";\nlet l = import "std/lists.ucg";\nout json {n = s.f(s.v), len = l.len([1, 2, 3])};\n',
+        'sub/deep/b.ucg': 'let s = import "../../lib/shared.ucg";\nlet a = import "../a.ucg";\nlet t = TRACE s.v;\nout toml {x = s.v, e = env.%s};\n' % SET_VAR,
+        'top.ucg': 'let a = import "sub/a.ucg";\nlet b = import "./sub/deep/b.ucg";\nlet b2 = import "sub/../sub/deep/b.ucg";\nout flags {x = b.t, y = "z"};\n',
+        'sub/c.ucg': 'let b = import "deep/b.ucg";\nlet e = env.%s;\nout env {A = "b"};\n' % UNSET_VAR,
+    }), [['sub/deep/b.ucg', 'top.ucg'], ['top.ucg', 'sub/a.ucg', 'top.ucg'], ['sub/c.ucg', 'lib/shared.ucg', 'sub/a.ucg'], ['-r', 'sub', 'top.ucg'], ['sub', 'lib'], ['-r', '.']]))
+    # every way of failing, each after a shared import, and a file that builds
+    P.append((Project('failing', {
+        'lib.ucg': 'let v = 11;\nlet t = {a = 1, b = "s"};\nlet f = func(a :: 0) => a + 1;\n',
+        'parse.ucg': 'let l = import "lib.ucg";\nlet oops = ;\n',
+        'type.ucg': 'let l = import "lib.ucg";\nlet bad = l.v + "str";\nout json bad;\n',
+        'rt.ucg': 'let l = import "lib.ucg";\nout json {v = l.v};\nlet boom = fail "boom @" % (l.v);\n',
+        'range.ucg': 'let l = import "lib.ucg";\nlet p :: in 1..10 = l.v;\nout yaml {p = p};\n',
+        'good.ucg': 'let l = import "lib.ucg";\nlet p :: in 1..20 = l.v;\nout yaml {p = l.f(p)};\n',
+    }), [['parse.ucg', 'good.ucg'], ['type.ucg', 'good.ucg', 'type.ucg'], ['rt.ucg', 'good.ucg', 'range.ucg'], ['range.ucg', 'good.ucg'], ['good.ucg', 'range.ucg', 'rt.ucg', 'lib.ucg'], ['.']]))
+    P.append((Project('failing2', {
+        'lib.ucg': 'let v = 11;\nlet t = {a = 1, b = "s"};\nlet f = func(a :: 0) => a + 1;\nout json t;\n',
+        'badlib.ucg': 'let l = import "lib.ucg";\nlet w = l.t.nofield;\n',
+        'imp_bad.ucg': 'let l = import "lib.ucg";\nlet b = import "badlib.ucg";\nout json {w = b.w};\n',
+        'missing.ucg': 'let l = import "lib.ucg";\nlet m = import "nothere.ucg";\nout json 1;\n',
+        'unset.ucg': 'let l = import "lib.ucg";\nlet r = env.%s;\nout json r;\n' % UNSET_VAR,
+        'conv.ucg': 'let l = import "lib.ucg";\nout toml {a = NULL, v = l.v};\n',
+    }), [['badlib.ucg', 'imp_bad.ucg'], ['imp_bad.ucg', 'badlib.ucg', 'lib.ucg'], ['missing.ucg', 'conv.ucg', 'lib.ucg'], ['unset.ucg', 'unset.ucg', 'lib.ucg'], ['conv.ucg', 'imp_bad.ucg', 'missing.ucg'], []]))
+    # the same base names in two directories: whatever is shared must be keyed by the file, not by the spelling of the import
+    P.append((Project('same_name', {
+        'x/lib.ucg': 'let v = "from x";\nout json {v = v};\n',
+        'y/lib.ucg': 'let v = 2;\nout json {v = v};\n',
+        'x/conf.ucg': 'let l = import "lib.ucg";\nout yaml {v = l.v};\n',
+        'y/conf.ucg': 'let l = import "lib.ucg";\nout yaml {v = l.v + 1};\n',
+        'conf.ucg': 'let x = import "x/conf.ucg";\nlet y = import "y/conf.ucg";\nlet yl = import "y/../y/lib.ucg";\nout yaml {x = x.l.v, y = y.l.v, yl = yl.v};\n',
+    }), [['x/conf.ucg', 'y/conf.ucg'], ['y/conf.ucg', 'x/conf.ucg', 'conf.ucg'], ['conf.ucg', 'y/lib.ucg', 'x/lib.ucg'], ['x', 'y'], ['-r'], ['y/lib.ucg', 'x/../y/conf.ucg', './conf.ucg']]))
+    # assert statements are no-ops for `ucg build`: nothing of them may reach the next file
+    P.append((Project('asserts', {
+        'lib.ucg': 'let v = 1;\nassert {ok = v == 2, desc = "lib: v is two"};\n',
+        'a_test.ucg': 'let l = import "lib.ucg";\nassert {ok = l.v == 1, desc = "v is one"};\nassert {ok = false, desc = "never"};\nout json {v = l.v};\n',
+        'b.ucg': 'assert {ok = "yes", desc = "malformed"};\nout json 2;\n',
+        'c.ucg': 'let l = import "lib.ucg";\nout json {c = l.v};\n',
+    }), [['a_test.ucg', 'c.ucg'], ['lib.ucg', 'c.ucg', 'a_test.ucg'], ['b.ucg', 'c.ucg'], ['a_test.ucg', 'a_test.ucg', 'b.ucg'], ['.']]))
+    # include expressions next to imports
+    P.append((Project('include', {
+        'a.ucg': 'let d = include json "d/data.json";\nlet n = include str "notes.txt";\nout yaml {d = d, n = n};\n',
+        'd/b.ucg': 'let d = include json "data.json";\nlet a = import "../a.ucg";\nout json {k = d.k, n = a.n};\n',
+        'c.ucg': 'let d = include json "d/nothere.json";\nout json d;\n',
+    }, data={'d/data.json': '{"k": [1, 2, {"z": "w"}]}', 'notes.txt': 'some notes\n'}), [['a.ucg', 'd/b.ucg'], ['d/b.ucg', 'c.ucg', 'a.ucg'], ['c.ucg', 'a.ucg', 'c.ucg'], ['-r', '.']]))
+    return P
+
+
+# ------------------------------------------------------------------------------------------------------------------------ random projects
+DIRS = ['', '', 'sub', 'sub/deep', 'lib', 'x', 'y']
+BASES = ['lib', 'conf', 'app', 'base', 'svc', 'main', 'util', 'site_test', 'db']
+FAILS = ['parse', 'type_own', 'not_import', 'import_plus_str', 'no_field', 'no_binding', 'fail', 'range', 'alt', 'unset_env', 'missing_import', 'two_outs', 'toml_null',
+         'constraint_type', 'not_import']
+
+
+def spell(rnd, src_dir, target):
+    """a relative import path from a file in src_dir to the project file target, in one of several spellings"""
+    rel = os.path.relpath(target, src_dir or '.')
+    k = rnd.random()
+    if k < 0.5:
+        return rel
+    if k < 0.75:
+        return './' + rel if not rel.startswith('..') else rel
+    tdir = os.path.dirname(target)
+    if tdir:   # detour: into the target's directory, out again, in again
+        last = os.path.basename(tdir)
+        return os.path.join(os.path.dirname(rel), '..', last, os.path.basename(rel))
+    if src_dir:  # target in the root, importer below it: one more `..` than needed through the importer's own directory
+        return os.path.join('..', os.path.basename(src_dir), rel)
+    return rel
+
+
+def gen_project(rnd, idx):
+    n = rnd.randint(2, 6)
+    dirs = rnd.sample(DIRS, rnd.choice([1, 2, 3]))
+    names = []
+    while len(names) < n:
+        f = os.path.join(rnd.choice(dirs), rnd.choice(BASES) + '.ucg')
+        if f not in names:
+            names.append(f)
+    files = {}
+    fails = {}
+    for i, f in enumerate(names):
+        d = os.path.dirname(f)
+        L = []
+        pad = lambda: ('\n' * rnd.choice([0, 0, 1, 2])) + (' ' * rnd.choice([0, 0, 0, 2, 4]))
+        mods = []
+        if i > 0 and rnd.random() < 0.85:
+            k = min(i, rnd.choice([1, 1, 2, 3]))
+            # libraries imported by several files: the first two files are favoured
+            cands = names[:i]
+            picks = []
+            for _ in range(k):
+                t = rnd.choice(cands[:2]) if rnd.random() < 0.5 else rnd.choice(cands)
+                if t not in picks:
+                    picks.append(t)
+            for t in picks:
+                m = 'm%d' % len(mods)
+                L.append('%slet %s = import "%s";' % (pad(), m, spell(rnd, d, t)))
+                mods.append(m)
+                if rnd.random() < 0.2:   # the same file once more, under another spelling
+                    L.append('%slet %sb = import "%s";' % (pad(), m, spell(rnd, d, t)))
+        std = None
+        if rnd.random() < 0.3:
+            std = rnd.choice(['lists', 'tuples'])
+            L.append('%slet %s = import "std/%s.ucg";' % (pad(), std, std))
+        base = rnd.randint(1, 40)
+        vexpr = str(base)
+        if mods and rnd.random() < 0.6:
+            vexpr = '%s.v + %d' % (rnd.choice(mods), base)
+        if rnd.random() < 0.25:
+            vexpr = 'TRACE (%s)' % vexpr
+        L.append('%slet v = %s;' % (pad(), vexpr))
+        nm = '"%s#%d"' % (os.path.basename(f)[:-4], idx)
+        if rnd.random() < 0.2:
+            nm = 'env.%s' % SET_VAR
+        L.append('%slet name = %s;' % (pad(), nm))
+        L.append('%slet t = {a = v, b = name};' % pad())
+        L.append('%slet l = [v, %d];' % (pad(), rnd.randint(0, 9)))
+        if rnd.random() < 0.5:
+            L.append('%slet f = func(x%s) => x + %d;' % (pad(), rnd.choice(['', ' :: 0']), rnd.randint(1, 9)))
+        fields = ['v = v', 'name = name']
+        for m in mods:
+            k = rnd.random()
+            if k < 0.3:
+                L.append('%slet u_%s = %s.t.a * 2;' % (pad(), m, m))
+                fields.append('u_%s = u_%s' % (m, m))
+            elif k < 0.55:
+                L.append('%slet u_%s = %s.name + "!";' % (pad(), m, m))
+                fields.append('u_%s = u_%s' % (m, m))
+            elif k < 0.7:
+                L.append('%slet u_%s = %s.t{c = %s.l};' % (pad(), m, m, m))
+            elif k < 0.8:
+                L.append('%slet u_%s :: {a = 0, b = ""} = %s.t;' % (pad(), m, m))
+        if std == 'lists':
+            L.append('%slet n_l = lists.len(l);' % pad())
+            fields.append('n_l = n_l')
+        elif std == 'tuples':
+            L.append('%slet t_f = tuples.fields(t);' % pad())
+        if rnd.random() < 0.2:
+            L.append('%sassert {ok = v %s v, desc = "assert in %s"};' % (pad(), rnd.choice(['==', '!=']), os.path.basename(f)))
+        fmt = rnd.choice(sorted(EXT)) if rnd.random() < 0.65 else None
+        outline = None
+        if fmt:
+            flds = fields if fmt in ('json', 'yaml', 'toml') else fields[:2]
+            outline = '%sout %s {%s};' % (pad(), fmt, ', '.join(flds))
+        bad = None
+        if rnd.random() < 0.38:
+            kind = rnd.choice(FAILS)
+            m = rnd.choice(mods) if mods else None
+            bad = {'parse': 'let oops = ;', 'type_own': 'let bad = v + "s";', 'fail': 'let boom = fail "boom @ in %s" %% (v);' % os.path.basename(f),
+                   'range': 'let r :: in 100..200 = v;', 'alt': 'let r :: "x" | "y" = name;', 'unset_env': 'let e = env.%s;' % UNSET_VAR,
+                   'missing_import': 'let gone = import "%s";' % spell(rnd, d, os.path.join(rnd.choice(dirs), 'nothere.ucg')),
+                   'two_outs': 'out json {second = v};', 'toml_null': None, 'constraint_type': 'let c :: "" = v;'}.get(kind)
+            if kind in ('not_import', 'import_plus_str', 'no_field', 'no_binding'):
+                if m is None:
+                    kind, bad = 'type_own', 'let bad = v + "s";'
+                else:
+                    bad = {'not_import': 'let bad = not %s;' % m, 'import_plus_str': 'let bad = %s.v + "s";' % m, 'no_field': 'let bad = %s.t.nofield;' % m,
+                           'no_binding': 'let bad = %s.nosuch;' % m}[kind]
+            if kind == 'toml_null':
+                outline = '%sout toml {v = v, z = NULL};' % pad()
+            if kind == 'two_outs' and outline is None:
+                outline = '%sout yaml {first = v};' % pad()
+            fails[f] = kind
+        if bad is not None and rnd.random() < 0.5:
+            L.append(pad() + bad)
+            bad = None
+        if outline:
+            L.append(outline)
+        if bad is not None:
+            L.append(pad() + bad)
+        files[f] = '\n'.join(L) + '\n'
+    return Project('random#%d' % idx, files)
+
+
+# ------------------------------------------------------------------------------------------------------------------------ invocation shapes
+def respell(rnd, f):
+    k = rnd.random()
+    if k < 0.4:
+        return './' + f
+    if k < 0.7:
+        return os.path.join('$ROOT', f)    # absolute: filled in per sandbox
+    d = os.path.dirname(f)
+    if d:
+        return os.path.join(d, '..', os.path.basename(d), os.path.basename(f))
+    return './/' + f
+
+
+def make_configs(proj, rnd, tier, must=(), budget=12):
+    """-> list of (args, twice): the `must` lists, then `budget` more drawn in turn from the shape families"""
+    fs = proj.order
+    n = len(fs)
+    thorough = tier == 'thorough'
+    # whole list: every order up to 3 (thorough: 4) files, sampled beyond
+    if n <= (4 if thorough else 3):
+        perms = [list(p) for p in itertools.permutations(fs)]
+        rnd.shuffle(perms)
+    else:
+        perms = [list(fs), list(reversed(fs))]
+        for _ in range(8):
+            p = list(fs)
+            rnd.shuffle(p)
+            perms.append(p)
+    # ordered selections of 2 and 3 files
+    pairs = [list(p) for p in itertools.permutations(fs, 2)]
+    rnd.shuffle(pairs)
+    triples = [list(p) for p in itertools.permutations(fs, 3)] if n >= 4 else []
+    rnd.shuffle(triples)
+    # repetitions
+    a, b = rnd.sample(fs, 2)
+    c = rnd.choice(fs)
+    reps = [[a, a], [a, b, a], [b, a, a, b], [c, c, c], [b, b, a]]
+    rnd.shuffle(reps)
+    # directory arguments, -r, no argument
+    dirs = sorted(set(os.path.dirname(f) for f in fs if os.path.dirname(f)))
+    dmodes = [['.'], [], ['-r']]
+    if dirs:
+        d = rnd.choice(dirs).split('/')[0]
+        dmodes += [[d], ['-r', d, rnd.choice(fs)], [rnd.choice(fs), d]]
+    rnd.shuffle(dmodes)
+    dmodes = [['-r', '.']] + dmodes
+    # other spellings of the listed paths
+    spelled = []
+    for _ in range(4):
+        sel = rnd.sample(fs, rnd.randint(2, min(n, 4)))
+        spelled.append([respell(rnd, f) for f in sel] + ([respell(rnd, sel[0])] if rnd.random() < 0.3 else []))
+    fams = [perms, dmodes, reps, pairs, spelled, perms, pairs, triples]
+    cfgs = [(list(m), i == 0) for i, m in enumerate(must)]
+    seen = set(tuple(m) for m in must)
+    first = set()
+    while budget > 0 and any(fams):
+        for k, fam in enumerate(fams):
+            while fam and tuple(fam[0]) in seen:
+                fam.pop(0)
+            if fam and budget > 0:
+                args = fam.pop(0)
+                seen.add(tuple(args))
+                # the first whole-list order and (thorough) the first directory invocation and repetition are run twice in a row
+                twice = k not in first and (k == 0 or (thorough and k in (1, 2)))
+                first.add(k)
+                cfgs.append((args, twice))
+                budget -= 2 if twice else 1
+    return cfgs
+
+
+# ------------------------------------------------------------------------------------------------------------------------ stand-ins
+ORACLE = ('per file: printed lines (diagnostic, file, line:column, TRACE) equal to `ucg build <file>` alone; exit status != 0 iff a file of the invocation '
+          'fails alone; artifacts on disk = union of the alone artifacts, byte for byte')
+
+
+def finish(name, bound, items, res):
+    n_alone, n_batch, v = res
+    bound = '%s; %d projects, %d builds alone, %d batch invocations' % (bound, len(items), n_alone, n_batch)
+    if v:
+        return dict(name=name, bound=bound, cases=n_batch, status='violation', detail=v['detail'][:900], input=v['input'])
+    return dict(name=name, bound=bound, cases=n_batch, status='ok', detail=ORACLE)
+
+
+def standin_batch_designed(tier, seed):
+    name = 'batch_designed'
+    try:
+        rnd = random.Random(seed)
+        items = []
+        for proj, must in designed_projects():
+            items.append((proj, make_configs(proj, rnd, tier, must=must, budget=14 if tier == 'thorough' else 3)))
+        bound = ('8 designed projects of 3..6 files (shape-cache position, output locks, directory tree with `..` imports / std / TRACE / env, every way of failing x2, '
+                 'equal base names, asserts, includes): designed file lists + orders, selections, repetitions, directory / -r / no-argument mode, other path spellings; '
+                 'some invocations run twice in a row')
+        return finish(name, bound, items, run_all(items))
+    except Exception as e:
+        return dict(name=name, bound='designed projects', cases=0, status='error', detail=repr(e)[:500])
+
+
+def standin_batch_random(tier, seed):
+    name = 'batch_random'
+    try:
+        rnd = random.Random(seed * 7919 + 16)
+        nproj = 60 if tier == 'thorough' else 3
+        items = []
+        for i in range(nproj):
+            proj = gen_project(rnd, i)
+            items.append((proj, make_configs(proj, rnd, tier, budget=20 if tier == 'thorough' else 12)))
+        bound = ('%d random projects (seed %d) of 2..6 files in up to 3 directories: import DAG with several spellings (./, ..), std imports, TRACE, env, asserts, at most one '
+                 'out json|yaml|toml|env|flags per file, 38%% of the files failing in one of 14 ways; every order of the whole list up to %d files (sampled beyond), ordered '
+                 'selections of 2 and 3, repetitions, directory / -r / no-argument mode, other path spellings; some invocations run twice in a row' % (
+                     nproj, seed, 4 if tier == 'thorough' else 3))
+        return finish(name, bound, items, run_all(items))
+    except Exception as e:
+        return dict(name=name, bound='random projects', cases=0, status='error', detail=repr(e)[:500])
+
+
+STANDINS = [standin_batch_designed, standin_batch_random]
